@@ -1,8 +1,10 @@
 """C07 — Krylov exponentiation is accurate and honest about convergence (DESIGN.md §4 C07).
 
 Proved (Coq, all oracle streams / all max_krylov_dim): the control contract of krylov_exp_impl /
-krylov_exp (Model.KrylovExp.Control) and the Arnoldi/Lanczos relation + polynomial exactness over an
-abstract module (Model.KrylovExp.Full).  Tie: hand-written model, checked on every run by
+krylov_exp (Model.KrylovExp.Control, three source variants: Original / Confirmed / ConfirmedMax, chosen from the
+source text by source_variant()) and the Arnoldi/Lanczos relation + Hessenberg shape over an abstract module
+(Model.KrylovExp.Full); the full model's flags are proved to follow the control model.  NOT done: the ext
+theorem krylov_polynomial_exact (A^k v_0 = V_m T_m^k e_1).  Tie: hand-written model, checked on every run by
   (1) an exact correspondence of the control outcome: the real function is run with a logging `op`
       and a logging torch.linalg.matrix_exp, the oracle values n2_j / err1_j / err2_j are recomputed
       from the logs with the same torch calls and fed to the model;
@@ -235,12 +237,12 @@ MODEL_SLACK = 3
 
 
 def source_variant():
-    """-> (fixed: bool, problem: str | None)"""
+    """-> (variant: "Original" | "Confirmed" | "ConfirmedMax", problem: str | None)"""
     import ast
     src = (common.REPO / "emu_base/math/krylov_exp.py").read_text()
     fn = next((n for n in ast.parse(src).body if isinstance(n, ast.FunctionDef) and n.name == "krylov_exp_impl"), None)
     if fn is None:
-        return False, "krylov_exp_impl not found"
+        return "Original", "krylov_exp_impl not found"
     tests = [ast.unparse(n.test) for n in ast.walk(fn) if isinstance(n, ast.If)]
     n_conv = tests.count("err < exp_tolerance")
     n_bd = tests.count("n2 < norm_tolerance")
@@ -248,14 +250,20 @@ def source_variant():
     names = {n.id for n in ast.walk(fn) if isinstance(n, ast.Name)}
     n_ops = sum(1 for n in ast.walk(fn) if isinstance(n, ast.Call) and ast.unparse(n.func) == "op")
     if n_bd != 1:
-        return False, f"expected one `if n2 < norm_tolerance`, found {n_bd}"
+        return "Original", f"expected one `if n2 < norm_tolerance`, found {n_bd}"
     if "confirmed" not in names:
         if n_conv == 1 and n_ops == 1:
-            return False, None
-        return False, f"unrecognised shape: {n_conv} convergence tests, {n_ops} op calls"
-    if n_conv == 2 and n_ops == 2 and confirm == [f"not confirmed < {MODEL_SLACK} * exp_tolerance"]:
-        return True, None
-    return True, f"unrecognised confirmation step: tests={tests}, op calls={n_ops} (model has SLACK={MODEL_SLACK})"
+            return "Original", None
+        return "Original", f"unrecognised shape: {n_conv} convergence tests, {n_ops} op calls"
+    assigns = [ast.unparse(n.value) for n in ast.walk(fn) if isinstance(n, ast.Assign)
+               and ast.unparse(n.targets[0]) == "confirmed"]
+    shape_ok = n_conv == 2 and n_ops == 2 and confirm == [f"not confirmed < {MODEL_SLACK} * exp_tolerance"]
+    if shape_ok and assigns == ["err1 if err1 < err2 else err1 * err2 / (err1 - err2)"]:
+        return "Confirmed", None
+    if shape_ok and assigns == ["err2 if err1 < err2 else err1 * err2 / (err1 - err2)"]:
+        return "ConfirmedMax", None
+    return "Confirmed", (f"unrecognised confirmation step: tests={tests}, confirmed={assigns}, op calls={n_ops} "
+                         f"(model has SLACK={MODEL_SLACK})")
 
 
 # ---------------------------------------------------------------------------------------------
@@ -362,7 +370,7 @@ def real_run(case, A=None, v=None):
 def control_expr(case, run, fixed):
     fl = common.float_lit
     lst = lambda xs: "[" + "; ".join(fl(x) for x in xs) + "]"
-    args = (f"float_arith {'true' if fixed else 'false'} (stream nan {lst(run['n2s'])}) (stream nan {lst(run['e1s'])}) "
+    args = (f"float_arith {fixed} (stream nan {lst(run['n2s'])}) (stream nan {lst(run['e1s'])}) "
             f"(stream nan {lst(run['e2s'])}) (stream nan {lst(run['e2cs'])}) "
             f"{fl(case['norm_tol'])} {fl(case['exp_tol'])} {case['max_dim']}")
     return f"(outcome (kexp_impl {args}), outcome (kexp_public {args}))"
@@ -479,7 +487,7 @@ def full_expr(case, run, fixed):
         tab[sz] = e[:, 0].numpy()          # later calls of the same size win (see Model: lookup)
     tabs = "[" + "; ".join(f"({sz}%nat, {vec(col)})" for sz, col in sorted(tab.items())) + "]"
     b = "true" if case["herm_flag"] else "false"
-    return (f"CF.kexp_float {'true' if fixed else 'false'} {M} {vec(v)} {b} {fl(case['exp_tol'])} {fl(case['norm_tol'])} "
+    return (f"CF.kexp_float {fixed} {M} {vec(v)} {b} {fl(case['exp_tol'])} {fl(case['norm_tol'])} "
             f"{case['max_dim']} {tabs}")
 
 
@@ -543,7 +551,7 @@ def run(ctx):
     fixed, problem = source_variant()
     ctx.obligation("source-variant:krylov_exp_impl is the original or the confirmed-estimate variant the model knows",
                    problem is None, problem or "", kind="translator")
-    ctx.extra["source_variant"] = "fixed (confirmation step, SLACK=3)" if fixed else "original"
+    ctx.extra["source_variant"] = fixed
 
     cases = list(corpus_cases())
     n_op, n_small, n_mal = ctx.n(110, 2200), ctx.n(40, 300), ctx.n(30, 200)
@@ -590,7 +598,7 @@ def run(ctx):
                                {"outcome": str(i[0]), "op_calls": r["n_op_calls"]}, nontrivial)
                 # operator applications: one per iteration (+ the final confirmation in the fixed variant)
                 consistent = (r["exc"] is not None) or (r["n_op_calls"] == r["iters"]) or \
-                    (fixed and r["n_op_calls"] == r["iters"] + 1)
+                    (fixed != "Original" and r["n_op_calls"] == r["iters"] + 1)
                 if (m != i or not consistent) and corr_ok:
                     corr_ok = False
                     detail = f"case={c} impl={i} model={m} op_calls={r['n_op_calls']}"
@@ -642,8 +650,8 @@ def run(ctx):
         "exists; it is only validated by the falsifier against scipy.linalg.expm with the acceptance rule in "
         "coverage.falsifier.acceptance_rule",
         "dtype complex128/float64; comparisons n2 < norm_tolerance, err < exp_tolerance are binary64 comparisons",
-        "arnoldi_relation / krylov_polynomial_exact are exact-arithmetic statements over an abstract module; "
-        "rounding and loss of orthogonality are outside them",
+        "arnoldi_relation is an exact-arithmetic statement over an abstract module; rounding and loss of "
+        "orthogonality are outside it; the ext theorem krylov_polynomial_exact of DESIGN.md is not delivered",
     ]
     ctx.notes.append("max_krylov_dim = 0 makes krylov_exp_impl raise UnboundLocalError (expd unbound), not RecursionError; "
                      "it is outside the quantifier (1..100), modelled as Err E_UNBOUND and covered by the correspondence")
@@ -667,8 +675,11 @@ META = {
              "max_dim had n2_j < norm_tol or err_j < exp_tol; iteration_count = least such j + 1; happy_breakdown -> "
              "converged; krylov_exp returns iff converged and raises otherwise. Proved over an abstract module: the "
              "Arnoldi relation A v_j = sum_k T[k,j] v_k + T[j+1,j] v_{j+1} for every completed iteration of both the "
-             "full and the two-term (is_hermitian) variant, Hessenberg shape, and A^k v_0 = V_m T_m^k e_1 for k < m. "
-             "NOT proved, only validated: the '10 x tolerance' accuracy (Expokit estimate is a heuristic)."),
+             "full and the two-term (is_hermitian) variant (no extra premise for the two-term one) and the Hessenberg shape "
+             "of T; the flags of the full model equal the control model on the streams it computes. All for the three "
+             "variants of the convergence test (upstream / confirmed estimate / conservative confirmation), selected "
+             "from the source text. NOT proved, only validated: the '10 x tolerance' accuracy (Expokit estimate is a "
+             "heuristic). NOT done: ext krylov_polynomial_exact."),
     "note": ("Trusted: Coq kernel+VM, hand-written model (checked by correspondence on every run: exact control "
              "outcome from logged oracle values; full model within 1e-9 for dim<=6), scipy.linalg.expm reference, "
              "binary64 = PrimFloat. Rounding allowance of the falsifier 1e-12*|v|*max(1,|A|)."),
